@@ -9,7 +9,7 @@ import vlib
 from vlib import SPEC
 
 D = SPEC / "JsonFields"
-FIELDS = ["fa", "fb", "we\"ird", "back\\slash", "ctl\u0001x", "uni z", "crab\U0001f980", "dotted.name", "r#ref", "r#return"]
+FIELDS = ["fa", "fb", "we\"ird", "back\\slash", "ctl\u0001x", "uni z", "crab\U0001f980", "dotted.name", "r#ref", "r#return", "login", "log_level"]     # (names merely beginning with `log` are ordinary fields)
 SPAN_NAMES = {"spA": "spA", "spB": "spB", "spC": "spC", "spD": "sp\"D\\"}
 NASTY = ["", "plain", "quote\"inside", "back\\slash", "new\nline", "tab\tctl\u0001\u001f", "ls ps ", "crab\U0001f980\U0001f4a9", "{\"json\":1}", "'single'",
          "éè 中文", "</script>", "\\u0041", "null", "a" * 300]
@@ -30,7 +30,7 @@ def h(x):
 
 
 def rand_val(rng):
-    t = rng.choice(["u64", "i64", "f64", "bool", "str", "str", "u128", "i128", "display", "debug", "bytes", "error"])
+    t = rng.choice(["u64", "i64", "f64", "bool", "str", "str", "u128", "i128", "display", "debug", "bytes", "error", "error_send", "error_sync", "error_send_sync"])
     if t in INTS:
         return {"t": t, "v": rng.choice(INTS[t])}
     if t == "f64":
@@ -80,7 +80,7 @@ def expected_token(val):
         return ["f:" + repr(f)] + (["n:" + str(int(f))] if f == int(f) and abs(f) < 2 ** 63 else [])
     if t == "bool":
         return ["b:" + v]
-    if t in ("str", "display", "error"):
+    if t in ("str", "display", "error", "error_send", "error_sync", "error_send_sync"):     # every error trait object is recorded by its Display text
         return ["s:" + h(v)]
     if t == "debug":
         return ["s:" + h(debug_str(v))]
